@@ -9,28 +9,29 @@ _TB = [
 ENTRY = dict(
     level="proof",
     level_text=(
-        "PARTIAL. Lean 4 theorems over a small-step port of muyo/sno Generator.New (one step per atomic load/add/"
-        "store/CAS, clock read and regression-lock operation; explicit schedules of thread steps, clock ticks, "
-        "overflow-ticker firings and snapshot/restore) and of the fallback generator. Proved for schedules of any "
-        "length and any number of threads/generators: fallback ids are pairwise distinct under every interleaving "
-        "(atomic fetch-add) and across generators with distinct creation-time prefixes; sno ids strictly increase "
-        "lexicographically in (time, sequence) and are pairwise distinct, also across snapshot/restore and across "
-        "generators with distinct partitions, WHEN SnoGenerator.New is serialised by a mutex (C20_partial). For the "
-        "code as it is (no mutex; fact extracted on every run) the full statement is refuted on the model by two "
-        "kernel-checked witness schedules (stale time read, sequence-reset window) and the refutation is re-observed "
-        "on the real library by the concurrent stress harness (known finding sno_concurrent_duplicate)."),
+        "Lean 4 theorems over a small-step port of muyo/sno Generator.New (one step per atomic load/add/store/CAS, "
+        "clock read and regression-lock operation; explicit schedules of thread steps, clock ticks, overflow-ticker "
+        "firings and snapshot/restore) and of the fallback generator, for schedules of any length and any number of "
+        "threads/generators. The statement C20_statementFor has three extracted facts as parameters (SnoGenerator.New "
+        "serialised by a mutex; fallback counter advanced atomically; fallback prefix carries a per-program serial "
+        "number) and is DECIDED for every value of them (C20_decided: it holds iff all three are true; otherwise a "
+        "kernel-checked witness refutes it). On the current tree the first two are true (D15 repaired) and the third "
+        "is false: PARTIAL — everything except uniqueness across fallback generators created within one clock reading, "
+        "which is refuted on the model (fallback_counterexample_same_clock) and re-observed on the code under "
+        "concurrent creation (known finding fallback_same_prefix). With a serial number in the prefix the full "
+        "statement is proved (C20_partial / current_statement)."),
     level_note=(
-        "full strength, for the code as it is: fallback_unique, fallback_unique_across, sno_unique_single_goroutine (one "
-        "drawing goroutine, no mutex, any ticks/overflow/restore), sno_partition_any_schedule + "
-        "sno_distinct_generators_disjoint (ids of generators with different partitions never coincide, any schedule, "
-        "serialised or not), genPartition_injective. under the hypothesis `New serialised`: sno_unique_serialised / "
-        "sno_lex_increasing (all schedules of the mutex-protected machine), sno_unique_across_generators. partial: concurrent draws from one "
-        "sno generator are NOT unique (C20_counterexample_stale_time / _reset_window, C20_not_holds); two fallback "
-        "generators created within one clock reading share all ids (fallback_same_prefix_collides; observed under "
-        "concurrent creation). tested only: the model/implementation tie (decoded single-goroutine traces replayed "
-        "through the same step function, snapshot fields, restore continuation), engine-level flow/instance ids. "
-        "modelled, not proved: monotone 4 ms clock, uint32 sequence never wraps, overflow-ticker body atomic, JSON "
-        "round trip of the snapshot is the identity, snapshots are taken between draws"),
+        "full strength, whatever the facts: fallback_unique, fallback_unique_across (given distinct prefixes), "
+        "sno_unique_single_goroutine (one drawing goroutine, no mutex), sno_partition_any_schedule + "
+        "sno_distinct_generators_disjoint, genPartition_injective. selected by facts (both sides proved): "
+        "snoNewSerialised -> sno_unique_serialised / sno_lex_increasing (all schedules of the mutex-protected machine) "
+        "| C20_counterexample_stale_time, _reset_window; fallbackCounterAtomic -> fallback_unique | "
+        "fallback_counterexample_nonatomic; fallbackPrefixSerial -> fallback_unique_program (any clock readings, no "
+        "distinct-prefix hypothesis) | fallback_counterexample_same_clock. tested only: the model/implementation tie "
+        "(decoded single-goroutine traces replayed through the same step function, snapshot fields, restore "
+        "continuation, consecutive serial numbers of fallback generators), engine-level flow/instance ids. modelled, "
+        "not proved: monotone 4 ms clock, uint32 sequence never wraps, overflow-ticker body atomic, JSON round trip of "
+        "the snapshot is the identity, snapshots are taken between draws"),
     technique=("Lean 4 proof (inductive invariant over a small-step concurrent machine; decide-checked counterexample "
                "schedules; fact-selected dichotomy) + trace validation of decoded ids + concurrent duplicate detection"),
     lean_modules=["Bpmn.Props.C20", "Bpmn.Props.C20Current"],
